@@ -127,6 +127,8 @@ def _(ctx):
         ctx.record('paths', ERROR, 'B', 0, 'expected exactly one non-throwing path under the precondition, got %d of %d' % (len(ok_paths), len(paths)))
         return
     sym, (Mhh, MAh, MHm, ew1, ew2, MW2, MZ2), _ = ok_paths[0]
+    # domain side conditions first (sqrt/division/asin arguments for ALL admissible inputs, m12^2 of either sign): they are the cheapest refutations
+    ctx.sides('build', sym, pre)
     f = b.f
     tb, sba = f['tan_beta'], f['sin_beta_minus_alpha']
     # alpha as the code computes it
@@ -171,7 +173,6 @@ def _(ctx):
     P_ = th.f
     ctx.prove('stored', ax, z3.And(z3real(P_['lambda6']) == f['lambda_6'], z3real(P_['lambda7']) == f['lambda_7'],
                                     z3real(P_['m122']) == f['m122'], z3real(P_['v2']) == z3real(tb) * z3real(P_['v1'])))
-    ctx.sides('build', sym, pre)
 
 # ---------------------------------------------------------------------------------------------------
 # A-LINALG: the documented contract of the eigen-solver (assumed; this is C12) -- nothing about signs
